@@ -34,6 +34,8 @@ def gen_cases(tier, seed):
     for desc in grammars.family(seed, PLAN[tier]["grammars"], "general"):
         for rk, dk in workload.config_grid(rng):
             yield {"kind": "ops", "desc": desc, "repr": rk, "decider": dk, "extra_depth": rng.choice([1, 2, 3]), "seed": rng.randrange(10**6), "nops": rng.randint(12, 30)}
+        # dSGE genotypes grow on demand: aliasing between a child and a parent only shows when the child is mapped later
+        yield {"kind": "ops", "desc": desc, "repr": "dsge", "decider": "own", "extra_depth": rng.choice([2, 3, 4]), "seed": rng.randrange(10**6), "nops": 40, "crossover_heavy": True}
         rk = rng.choice(workload.REPRS)
         yield {"kind": "steps", "desc": desc, "repr": rk, "decider": rng.choice(["maxdepth", "pigrow", "progressive"]), "extra_depth": rng.choice([1, 2, 3]), "seed": rng.randrange(10**6), "pop": rng.choice([2, 3, 5, 8, 11]), "gens": rng.randint(3, 12), "multi": rng.random() < 0.3}
 
@@ -181,7 +183,16 @@ def run_ops(ctx, case, rec):
                 rec.distinct_add([kind, ev.op, core.h(repr(born[id(ev.outputs[0])][1]))])
 
     sess = workload.Session(kind, rep, src, on_event, before)
-    sess.run_ops(workload.gen_ops(pyrandom.Random(case["seed"]), case["nops"]))
+    ops = workload.gen_ops(pyrandom.Random(case["seed"]), case["nops"])
+    if case.get("crossover_heavy"):
+        r2 = pyrandom.Random(case["seed"] + 1)
+        ops = [["create"] for _ in range(6)] + [["map", i] for i in range(6)]
+        for _ in range(case["nops"]):
+            ops.append(["crossover", r2.randrange(1000), r2.randrange(1000)])
+            if r2.random() < 0.3:
+                ops.append(["mutate", r2.randrange(1000)])
+        rec.count("crossover_heavy_sessions")
+    sess.run_ops(ops)
     # once produced, a genotype never changes (catches aliasing that a LATER operation mutates)
     for g, s0 in born.values():
         rec.count("end_of_history_compared")
